@@ -29,7 +29,8 @@ def sweep (p : Char → Bool) (lo hi : Nat) : List Nat :=
 
 /--
 * `c18.ask {choices, multi, default|null, limit|null, script, eof, interactive}`
-  -> `{result, reads, errors, prompts}` of `Question.ask pyInt …`
+  -> `{result, reads, errors, prompts}` of `Question.ask pyInt …`, `prompt_ok` = `promptOkB`
+* `c18.interchange_hyp {choices, multi, i}` -> `{hyp, text}`: `interchangeHypB`, `str(i)`
 * `c18.ask_old {choices, multi, default|null, limit|null, script, eof, fuel}` -> the same for the
   loop before the repair D22 (`askFuelOld`); `OutOfFuel`-style result `{"err": "outOfFuel"}`
 * `c18.confirm {prefixes, ci, default, interactive, script, eof}` -> `{result, reads, prompts}`
@@ -51,7 +52,15 @@ def handle (m : String) (j : Json) : Option (R Json) :=
       let interactive ← fBool j "interactive"
       let o := ask pyInt choices multi default limit interactive script eof
       return Json.mkObj [("result", jResult o.result), ("reads", jNat o.reads),
-                         ("errors", jNat o.errors), ("prompts", jNat o.prompts)]
+                         ("errors", jNat o.errors), ("prompts", jNat o.prompts),
+                         ("prompt_ok", .bool (promptOkB pyInt choices multi default))]
+  | "c18.interchange_hyp" => some do
+      -- the side condition of the interchangeability theorems (Props.C18.hyps_decide, interchange_dec)
+      -- and the index text `str(i)` they are stated for
+      let choices ← strs j "choices"
+      let multi ← fBool j "multi"
+      let i ← fNat j "i"
+      return Json.mkObj [("hyp", .bool (interchangeHypB choices multi i)), ("text", jStr (Nat.toDigits 10 i))]
   | "c18.ask_old" => some do
       -- the loop as it was before the repair D22, with `fuel` passes allowed (used for mutation trials)
       let choices ← strs j "choices"
